@@ -282,6 +282,11 @@ def _flat(kind: str, args: List[Poly]) -> Tuple[Poly, ...]:
 
 
 def band(args: List[Poly]) -> Poly:
+    if args and all(a.const_value() is not None for a in args):
+        v = -1
+        for a in args:
+            v &= a.const_value()  # type: ignore[operator]
+        return C(v)
     items = _flat("and", args)
     # x & 7 -> mod8 ; x & 255 -> trunc8
     consts = [p for p in items if p.const_value() is not None]
@@ -305,6 +310,9 @@ def bor(args: List[Poly]) -> Poly:
 
 
 def trunc8(x: Poly) -> Poly:
+    cv = x.const_value()
+    if cv is not None:
+        return C(cv & 255)
     if len(x.terms) == 1:
         (m, c), = x.terms.items()
         if c == 1 and len(m) == 1 and m[0][1] == 1 and m[0][0][0] == "trunc8":
